@@ -68,6 +68,19 @@ def key_mentions(key, sub):
     return False
 
 
+class TDict(dict):
+    """a dictionary created by the interpreted code; remembers how often it was handed to exec as the globals
+    mapping and which keys were (re-)assigned after it had been handed over once"""
+    def __init__(self, *a, **k):
+        super().__init__(*a, **k)
+        self.uses = 0
+        self.rewritten = set()
+
+    def wrote(self, key):
+        if self.uses:
+            self.rewritten.add(key)
+
+
 def _copy_val(v, memo):
     if isinstance(v, list):
         if id(v) in memo:
@@ -79,7 +92,9 @@ def _copy_val(v, memo):
     if isinstance(v, dict):
         if id(v) in memo:
             return memo[id(v)]
-        n = {}
+        n = TDict() if isinstance(v, TDict) else {}
+        if isinstance(v, TDict):
+            n.uses, n.rewritten = v.uses, set(v.rewritten)
         memo[id(v)] = n
         for k, x in v.items():
             n[k] = _copy_val(x, memo)
@@ -91,8 +106,9 @@ def _copy_val(v, memo):
 
 class Emit:
     """one hand-over of generated source text to exec"""
-    def __init__(self, src, raw, globs, call, func, choices, plan):
+    def __init__(self, src, raw, globs, call, func, choices, plan, reuse=1, rewritten=()):
         self.src, self.raw, self.globals = src, raw, globs
+        self.reuse, self.rewritten = reuse, tuple(rewritten)   # n-th exec with this very mapping / keys re-assigned since
         self.call, self.func = call, func          # the exec call node, the FunctionDef it sits in
         self.choices, self.plan = choices, plan    # fork decisions / loop plan that produced it
 
@@ -326,7 +342,7 @@ class SrcBuilder:
             emits.extend(self.run_plan({lid: 2}))
         seen, uniq = set(), []
         for e in emits:
-            k = (e.src, keyof(e.globals) if e.globals is not None else None, id(e.call))
+            k = (e.src, keyof(e.globals) if e.globals is not None else None, id(e.call), e.reuse, e.rewritten)
             if k not in seen:
                 seen.add(k)
                 uniq.append(e)
@@ -517,6 +533,8 @@ class SrcBuilder:
             idx = self.ev(t.slice, st)
             if isinstance(base, dict):
                 base[self.dkey(idx)] = v
+                if isinstance(base, TDict):
+                    base.wrote(self.dkey(idx))
             elif isinstance(base, list) and isinstance(idx, int) and -len(base) <= idx < len(base):
                 base[idx] = v
         elif isinstance(t, ast.Attribute):
@@ -731,7 +749,7 @@ class SrcBuilder:
         return [self.ev(x, st) for x in e.elts]
 
     def ev_Dict(self, e, st):
-        d = {}
+        d = TDict()
         for k, v in zip(e.keys, e.values):
             if k is None:
                 inner = self.ev(v, st)
@@ -784,7 +802,7 @@ class SrcBuilder:
 
     def ev_DictComp(self, e, st):
         pairs = self._comp(e, st, lambda s: (self.dkey(self.ev(e.key, s)), self.ev(e.value, s)))
-        return dict(pairs)
+        return TDict(pairs)
 
     def ev_Call(self, e, st):
         f = e.func
@@ -853,7 +871,11 @@ class SrcBuilder:
         if name in ('max', 'min', 'abs', 'sum') and args and all(isinstance(a, int) for a in args) and not kwargs:
             return {'max': max, 'min': min, 'abs': abs, 'sum': lambda *a: sum(a)}[name](*args)
         if name == 'dict' and not args:
-            return dict(kwargs)
+            return TDict(kwargs)
+        if name == 'dict' and len(args) == 1 and isinstance(args[0], dict):
+            d = TDict(args[0])
+            d.update(kwargs)
+            return d
         return NotImplemented
 
     def call_method(self, recv, name, args, kwargs, e):
@@ -895,16 +917,24 @@ class SrcBuilder:
             if name == 'get' and args:
                 return recv.get(self.dkey(args[0]), args[1] if len(args) > 1 else None)
             if name == 'update':
+                before = dict(recv)
                 if args and isinstance(args[0], dict):
                     recv.update(args[0])
                 elif args:
                     recv['**' + self.tostr(Sym(keyof(args[0])))] = args[0]   # unknown mapping merged in
                 recv.update(kwargs)
+                if isinstance(recv, TDict):
+                    for k in recv:
+                        if k not in before or keyof(before[k]) != keyof(recv[k]):
+                            recv.wrote(k)
                 return None
             if name == 'setdefault' and args:
-                return recv.setdefault(self.dkey(args[0]), args[1] if len(args) > 1 else None)
+                k = self.dkey(args[0])
+                if k not in recv and isinstance(recv, TDict):
+                    recv.wrote(k)
+                return recv.setdefault(k, args[1] if len(args) > 1 else None)
             if name == 'copy':
-                return dict(recv)
+                return TDict(recv)
             return generic
         if isinstance(recv, str):
             if name == 'join' and len(args) == 1:
@@ -1006,13 +1036,17 @@ class SrcBuilder:
         if not isinstance(src, str):
             raise AnalysisError(f"source handed to exec is not a statically known template: {norm(call.args[0])}")
         g = self.ev(call.args[1], st) if len(call.args) > 1 else None
+        reuse, rewritten = 1, ()
+        if isinstance(g, TDict):
+            g.uses += 1
+            reuse, rewritten = g.uses, sorted(g.rewritten)
         if isinstance(g, dict):
             g = dict(g)
         func = call
         while func is not None and not isinstance(func, ast.FunctionDef):
             func = getattr(func, '_parent', None)
         st.emits.append(Emit(textwrap.dedent(src) if dedent else src, src, g, call, func,
-                             list(st.choices), dict(self.plan)))
+                             list(st.choices), dict(self.plan), reuse, rewritten))
         return None
 
 
